@@ -884,3 +884,134 @@ impl<T: ?Sized + fmt::Display> fmt::Display for MutexGuard<'_, T> {
     (**self).fmt(f)
   }
 }
+
+// ------------------------------------------------------------------------------------------------
+// thread-local storage
+// ------------------------------------------------------------------------------------------------
+
+#[doc(hidden)]
+pub use shuttle as __shuttle;
+
+/// Thread-local key that is per *simulated* thread inside a shuttle execution (all simulated threads
+/// share one OS thread, so std's thread-local storage would be shared by them) and std's own
+/// thread-local storage otherwise. The simulator's build rewrites `thread_local!` in the dmntk crates
+/// into [thread_local!](crate::thread_local).
+pub struct DualLocalKey<T: 'static> {
+  #[doc(hidden)]
+  pub std_key: &'static std::thread::LocalKey<T>,
+  #[doc(hidden)]
+  pub sim_key: shuttle::thread::LocalKey<T>,
+}
+
+impl<T: 'static> DualLocalKey<T> {
+  /// Acquires a reference to the value in this key.
+  pub fn with<F, R>(&'static self, f: F) -> R
+  where
+    F: FnOnce(&T) -> R,
+  {
+    if sim_active() {
+      self.sim_key.with(f)
+    } else {
+      self.std_key.with(f)
+    }
+  }
+  /// Acquires a reference to the value in this key, `Err` when the key is destroyed.
+  pub fn try_with<F, R>(&'static self, f: F) -> Result<R, std::thread::AccessError>
+  where
+    F: FnOnce(&T) -> R,
+  {
+    if sim_active() {
+      Ok(self.sim_key.with(f))
+    } else {
+      self.std_key.try_with(f)
+    }
+  }
+}
+
+impl<T: 'static> DualLocalKey<std::cell::Cell<T>> {
+  pub fn set(&'static self, value: T) {
+    self.with(|cell| cell.set(value))
+  }
+  pub fn get(&'static self) -> T
+  where
+    T: Copy,
+  {
+    self.with(|cell| cell.get())
+  }
+  pub fn take(&'static self) -> T
+  where
+    T: Default,
+  {
+    self.with(|cell| cell.take())
+  }
+  pub fn replace(&'static self, value: T) -> T {
+    self.with(|cell| cell.replace(value))
+  }
+}
+
+impl<T: 'static> DualLocalKey<std::cell::RefCell<T>> {
+  pub fn with_borrow<F, R>(&'static self, f: F) -> R
+  where
+    F: FnOnce(&T) -> R,
+  {
+    self.with(|cell| f(&cell.borrow()))
+  }
+  pub fn with_borrow_mut<F, R>(&'static self, f: F) -> R
+  where
+    F: FnOnce(&mut T) -> R,
+  {
+    self.with(|cell| f(&mut cell.borrow_mut()))
+  }
+  pub fn set(&'static self, value: T) {
+    self.with(|cell| *cell.borrow_mut() = value)
+  }
+  pub fn take(&'static self) -> T
+  where
+    T: Default,
+  {
+    self.with(|cell| cell.take())
+  }
+  pub fn replace(&'static self, value: T) -> T {
+    self.with(|cell| cell.replace(value))
+  }
+}
+
+/// Declares thread-local keys with the syntax of `std::thread_local!`.
+#[macro_export]
+macro_rules! thread_local {
+  () => {};
+  ($(#[$attr:meta])* $vis:vis static $name:ident: $t:ty = const { $init:expr }; $($rest:tt)*) => (
+    $crate::__dual_local_key!($(#[$attr])* $vis $name, $t, $init);
+    $crate::thread_local!($($rest)*);
+  );
+  ($(#[$attr:meta])* $vis:vis static $name:ident: $t:ty = const { $init:expr }) => (
+    $crate::__dual_local_key!($(#[$attr])* $vis $name, $t, $init);
+  );
+  ($(#[$attr:meta])* $vis:vis static $name:ident: $t:ty = $init:expr; $($rest:tt)*) => (
+    $crate::__dual_local_key!($(#[$attr])* $vis $name, $t, $init);
+    $crate::thread_local!($($rest)*);
+  );
+  ($(#[$attr:meta])* $vis:vis static $name:ident: $t:ty = $init:expr) => (
+    $crate::__dual_local_key!($(#[$attr])* $vis $name, $t, $init);
+  );
+}
+
+#[doc(hidden)]
+#[macro_export]
+macro_rules! __dual_local_key {
+  ($(#[$attr:meta])* $vis:vis $name:ident, $t:ty, $init:expr) => {
+    $(#[$attr])*
+    $vis static $name: $crate::DualLocalKey<$t> = {
+      ::std::thread_local! {
+        static STD_KEY: $t = $init;
+      }
+      $crate::DualLocalKey {
+        std_key: &STD_KEY,
+        sim_key: $crate::__shuttle::thread::LocalKey {
+          init: || $init,
+          _p: ::std::marker::PhantomData,
+        },
+      }
+    };
+  };
+}
